@@ -16,6 +16,7 @@ static int SHARD = 0, NSH = 1;
 static Uci* g_uci;
 static uint64_t g_run_index = 0;
 static bool g_inproc = false;
+static int g_any_every = -1;  // mates list: every n-th placement without mate in one (-1 = tier default, 0 = none)
 static int g_m1_every = 1;   // mates list: take every n-th mate-in-one placement (1 = all)
 
 static bool mine()
@@ -646,7 +647,22 @@ static void list_mates(const std::string& sigspec)
         // "near mates": a checking move after which the opponent has exactly one legal reply - where a slip in
         // move generation or evaluation turns into a false mate announcement
         bool near = false;
-        if (!m1)
+        // only worth looking for when the defender owns a pawn on its start rank (double step) or a pawn
+        // beside an enemy pawn on its fifth rank (en passant after that pawn's neighbour double-steps)
+        bool candidate = false;
+        {
+            int def = 1 - p.stm;
+            char dp = ref::mk(def, 'p'), ap = ref::mk(p.stm, 'p');
+            int start = def == ref::WHITE ? 1 : 6, fifth = def == ref::WHITE ? 4 : 3, astart = p.stm == ref::WHITE ? 1 : 6;
+            for (int f = 0; f < 8 && !candidate; ++f)
+            {
+                if (p.b[start * 8 + f] == dp) candidate = true;
+                if (p.b[fifth * 8 + f] == dp)
+                    for (int df : {-1, 1})
+                        if (f + df >= 0 && f + df < 8 && p.b[astart * 8 + f + df] == ap) candidate = true;
+            }
+        }
+        if (!m1 && candidate)
             for (auto& m : lm)
             {
                 ref::make(p, m, t);
@@ -658,12 +674,15 @@ static void list_mates(const std::string& sigspec)
                 if (replies.size() == 1 && ref::lower(t.b[replies[0].from]) == 'p')
                 {
                     near = true;
+                    if (replies[0].flags & ref::F_DOUBLE) R.count("near_mate_only_reply_double_push");
+                    if (replies[0].flags & ref::F_EP) R.count("near_mate_only_reply_en_passant");
                     break;
                 }
             }
         if (near) R.count("near_mate_positions");
         if (m1 && g_m1_every > 1 && (idx % uint64_t(g_m1_every)) != 0) return true;
-        if (!m1 && !near && (idx % (q ? 97 : 16)) != 0) return true;
+        int any_every = g_any_every >= 0 ? g_any_every : (q ? 97 : 16);
+        if (!m1 && !near && (any_every == 0 || (idx % uint64_t(any_every)) != 0)) return true;
         // half-move clock lattice: a mate delivered on the 100th half-move is still a mate
         int clocks[3] = {0, 98, 99};
         ref::Pos pc = p;
@@ -1081,6 +1100,7 @@ int main(int argc, char** argv)
         else if (a == "--replay") replay = argv[++i];
         else if (a == "--inproc") g_inproc = true;
         else if (a == "--m1every") g_m1_every = atoi(argv[++i]);
+        else if (a == "--anyevery") g_any_every = atoi(argv[++i]);
         else if (a == "--seeds")
         {
             FILE* f = fopen(argv[++i], "r");
